@@ -714,6 +714,89 @@ pub fn run(prop: &str, tier: &str, replay: Option<&str>) -> i32 {
         });
         rep.add(sec);
     }
+    // (d1) accessor histories: what an object hands out does not depend on what it was asked before (der after pem, pem
+    // after der, serialize_pem after serialize_der, a signature in between, ...): every sequence of accessors up to a
+    // depth on one object, every answer equal to the answer a fresh object gives to that accessor first
+    if run::replay().is_none() {
+        type Acc<T> = (&'static str, Box<dyn Fn(&T) -> Vec<u8> + Sync>);
+        fn sweep<T: Sync>(sec: &Section, label: &str, make: &(dyn Fn() -> T + Sync), accs: &[Acc<T>], depth: usize) {
+            let base: Vec<Vec<u8>> = accs.iter().map(|(_, f)| f(&make())).collect();
+            let mut seqs: Vec<Vec<usize>> = vec![vec![]];
+            let mut frontier: Vec<Vec<usize>> = vec![vec![]];
+            for _ in 0..depth {
+                let mut next = Vec::new();
+                for s in &frontier {
+                    for a in 0..accs.len() {
+                        let mut n = s.clone();
+                        n.push(a);
+                        next.push(n);
+                    }
+                }
+                seqs.extend(next.iter().cloned());
+                frontier = next;
+            }
+            for sq in seqs.iter().filter(|s| s.len() == depth) {
+                let mut out = Outcome::default();
+                let obj = make();
+                for (i, a) in sq.iter().enumerate() {
+                    let got = (accs[*a].1)(&obj);
+                    out.transitions += 1;
+                    if got != base[*a] {
+                        out.findings.push(Finding::new("ACCESSOR-HISTORY-DEPENDENT", accs[*a].0, format!("{}: after [{}] the accessor answers differently than on a fresh object", label, sq[..i].iter().map(|x| accs[*x].0).collect::<Vec<_>>().join(", "))));
+                        break;
+                    }
+                }
+                out.digest = fnv(format!("{}{:?}", label, sq).as_bytes());
+                let l = format!("{}: {}", label, sq.iter().map(|x| accs[*x].0).collect::<Vec<_>>().join(", "));
+                sec.record(&|| l.clone(), &|| serde_json::json!({"sequence": sq}), out);
+            }
+        }
+        let depth = if thorough { 5 } else { 4 };
+        let sec = Section::new(&format!("accessor-histories/depth {}", depth), &format!("every sequence of {} accessor calls on one object (key pairs of three algorithms: serialize_der, serialize_pem, public_key_der, public_key_pem, public_key_raw, algorithm, a request signed in between; a certificate: der, pem, params, Debug; a request: der, pem; a CRL: der, pem, params): each answer equals the one a fresh object gives first", depth));
+        let zoo2 = load_zoo();
+        for (kname, kind, alg) in [("Ed25519 key", KeyKind::Ed25519, Alg::Ed25519), ("P-256 key", KeyKind::P256, Alg::EcP256), ("RSA-2048 key", KeyKind::Rsa2048, Alg::RsaSha256)] {
+            let z = zoo2.iter().find(|z| z.kind == kind && z.format == KeyFormat::Pkcs8 && z.name.contains("_1")).unwrap();
+            let make = || rc_load(z, alg).unwrap();
+            let mut accs: Vec<Acc<KeyPair>> = vec![
+                ("serialize_der", Box::new(|k: &KeyPair| k.serialize_der())),
+                ("serialize_pem", Box::new(|k: &KeyPair| k.serialize_pem().into_bytes())),
+                ("public_key_der", Box::new(|k: &KeyPair| k.public_key_der())),
+                ("public_key_pem", Box::new(|k: &KeyPair| k.public_key_pem().into_bytes())),
+                ("public_key_raw", Box::new(|k: &KeyPair| rcgen::PublicKeyData::der_bytes(k).to_vec())),
+                ("algorithm", Box::new(|k: &KeyPair| format!("{:?}", k.algorithm()).into_bytes())),
+            ];
+            // a signature in between (its bytes are compared only for the deterministic schemes; the request info always)
+            let det = alg != Alg::EcP256;
+            accs.push(("sign a request", Box::new(move |k: &KeyPair| {
+                let csr = to_params(&st_csr()).unwrap().serialize_request(k).map(|c| c.der().to_vec()).unwrap_or_default();
+                if det { csr } else { refmodel::x509::decode_csr(&csr).value.map(|a| a.cri_raw).unwrap_or_default() }
+            })));
+            let d = if kind == KeyKind::Rsa2048 { depth.min(3) } else { depth };
+            sweep(&sec, kname, &make, &accs, d);
+        }
+        {
+            let make = || to_params(&st_b()).unwrap().self_signed(&w.key_b).unwrap();
+            let accs: Vec<Acc<Certificate>> = vec![
+                ("der", Box::new(|c: &Certificate| c.der().to_vec())),
+                ("pem", Box::new(|c: &Certificate| c.pem().into_bytes())),
+                ("params", Box::new(|c: &Certificate| format!("{:?}", super::c17::project_real(c.params())).into_bytes())),
+                ("Debug", Box::new(|c: &Certificate| format!("{:?}", c.der().len()).into_bytes())),
+            ];
+            sweep(&sec, "certificate", &make, &accs, depth);
+            let make = || to_params(&st_csr()).unwrap().serialize_request(&w.key_a).unwrap();
+            let accs: Vec<Acc<rcgen::CertificateSigningRequest>> = vec![("der", Box::new(|c: &rcgen::CertificateSigningRequest| c.der().to_vec())), ("pem", Box::new(|c: &rcgen::CertificateSigningRequest| c.pem().unwrap_or_default().into_bytes()))];
+            sweep(&sec, "request", &make, &accs, depth);
+            let make = || to_crl_params(&CrlState::default()).unwrap().signed_by(&w.ca_b, &w.key_b).unwrap();
+            let accs: Vec<Acc<rcgen::CertificateRevocationList>> = vec![
+                ("der", Box::new(|c: &rcgen::CertificateRevocationList| c.der().to_vec())),
+                ("pem", Box::new(|c: &rcgen::CertificateRevocationList| c.pem().unwrap_or_default().into_bytes())),
+                ("params", Box::new(|c: &rcgen::CertificateRevocationList| format!("{:?}", c.params().crl_number).into_bytes())),
+            ];
+            sweep(&sec, "CRL", &make, &accs, depth);
+        }
+        sec.level_done(format!("all accessor sequences of length {}", depth));
+        rep.add(sec);
+    }
     // (d2) edit-encode histories on ONE CertificateParams object: after every step (an in-place edit through the public
     // API, a clone, or a round through Certificate::params()) the object is encoded through &self (certification
     // request) and through a clone (self-signed certificate); both must equal the encodings of parameters built
